@@ -727,25 +727,45 @@ func (p *rxPkg) rxCallee(call *ast.CallExpr) *ast.FuncDecl {
 	case *ast.Ident:
 		return p.Func("", f.Name)
 	case *ast.SelectorExpr:
-		// method of a package type: unique by name
-		var found *ast.FuncDecl
-		n := 0
+		// method of a package type: unique by name, or by name and number of parameters
+		var cands []*ast.FuncDecl
 		for _, file := range p.files {
 			for _, d := range file.Decls {
 				if fd, ok := d.(*ast.FuncDecl); ok && fd.Recv != nil && fd.Body != nil && fd.Name.Name == f.Sel.Name {
-					found = fd
-					n++
+					cands = append(cands, fd)
 				}
 			}
 		}
-		if n == 1 {
+		if len(cands) > 1 {
+			var byArity []*ast.FuncDecl
+			for _, fd := range cands {
+				n := 0
+				variadic := false
+				if fd.Type.Params != nil {
+					for _, fl := range fd.Type.Params.List {
+						if _, ok := fl.Type.(*ast.Ellipsis); ok {
+							variadic = true
+						}
+						if len(fl.Names) == 0 {
+							n++
+						}
+						n += len(fl.Names)
+					}
+				}
+				if !variadic && n == len(call.Args) {
+					byArity = append(byArity, fd)
+				}
+			}
+			cands = byArity
+		}
+		if len(cands) == 1 {
 			// not a call through an imported package name
 			if id, ok := f.X.(*ast.Ident); ok {
 				if rxImportPath(p.FileOf(call), id.Name) != "" {
 					return nil
 				}
 			}
-			return found
+			return cands[0]
 		}
 	}
 	return nil
